@@ -45,7 +45,7 @@ if __name__ == '__main__':
         for name, per, err in pool.imap_unordered(work, list(_U)):
             if per is None: print(f'{name}: could not be built: {err}'); continue
             tot = sum(v[0] for v in per.values()); vac = sum(v[1] for v in per.values())
-            dead = [ob for ob, v in per.items() if v[0] == v[1] and (name, ob) not in expected]
+            dead = [ob for ob, v in per.items() if v[0] == v[1] and (name, ob) not in expected and not any(u_ == name and o_.endswith('*') and ob.startswith(o_[:-1]) for u_, o_ in expected)]
             print(f'{name:58s} obligation paths {tot:5d}  on contradictory hypotheses {vac:5d}' + (f'   NEVER REALLY CHECKED: {dead[:6]}' if dead else ''))
             bad += len(dead)
     print(f'{len(_U)} units, {bad} obligation names without a single satisfiable path, {round(time.time() - t0)} s')
